@@ -19,6 +19,7 @@ def run_case(case):
                       # ['ev', name, thread] entries into the library's transition functions / user calls
     res = []
     attempt = [0]
+    restore = []
     try:
         dev.install(dev.Config(**cfgkw))
         dev.FakeLink.hook = lambda kind: log.append(['rx', kind, S.name()])
@@ -50,13 +51,26 @@ def run_case(case):
             setattr(obj, attr, w)
         wrap(cf, '_link_error_cb', 'err')
         wrap(cf, 'close_link', 'close')
+        # the moment get_link_driver returns inside open_link (driver installed / none / raised)
+        import cflib.crtp as _crtp
+        _orig_gld = _crtp.get_link_driver
+
+        def gld(*a, **k):
+            try:
+                d = _orig_gld(*a, **k)
+            except Exception:
+                log.append(['ev', 'open_end_fail', S.name()])
+                raise
+            log.append(['ev', 'open_end_ok' if d else 'open_end_fail', S.name()])
+            return d
+        _crtp.get_link_driver = gld
+        restore.append(lambda: setattr(_crtp, 'get_link_driver', _orig_gld))
         scf = SyncCrazyflie('fake://0', cf=cf)
         status = 'ok'
         for op in case['script']:
             name = op[0]
             if name in ('open', 'sync_open'):
-                failing = bool(case.get('no_driver') or dev.FakeLink.connect_raises)
-                log.append(['ev', 'open_fail' if failing else 'open', S.name()])
+                log.append(['ev', 'open', S.name()])
             try:
                 if name == 'open':
                     cf.open_link('fake://0')
@@ -126,4 +140,6 @@ def run_case(case):
                 'sessions': len(dev.FakeLink.instances), 'state': cf.state, 'link_none': cf.link is None,
                 'notes': [list(x) for x in S.log]}
     finally:
+        for f in restore:
+            f()
         detsched.uninstall()
